@@ -542,6 +542,17 @@ func c12ProfBody(r *h.Rng, c *c12Case, path string, fields map[string]any) {
 		c.Class += " body=random-proto"
 	default:
 		c.Header = map[string]string{"Content-Type": "application/json"}
+		// the handlers decode with encoding/json into the generated structs, whose json tags are the proto field names
+		// (label_selector, profile_typeID, group_by, label_names): with the camelCase names a Connect client sends, the
+		// selector never arrives. Mostly the names the code reads, sometimes the client's.
+		if !r.Chance(25) {
+			for from, to := range map[string]string{"labelSelector": "label_selector", "profileTypeID": "profile_typeID", "groupBy": "group_by", "labelNames": "label_names"} {
+				if v, ok := fields[from]; ok {
+					delete(fields, from)
+					fields[to] = v
+				}
+			}
+		}
 		b, _ := json.Marshal(fields)
 		c.Body = b
 		c.Class += " body=json"
